@@ -526,6 +526,7 @@ def typeOfVal : Val → OTy
       | .iface => interfaceType | .num k => .num k | .str => .string | .bool => .bool
       | .other n => .ref n))
   | .map _ => mapTy
+  | .tmap z _ _ => some (.map .string ((typeOfVal z).getD interfaceType))
   | .set et _ =>
     some (.map (match et with
       | .iface => interfaceType | .num k => .num k | .str => .string | .bool => .bool
